@@ -27,6 +27,14 @@
   `tracedata / weights / trace` parts as `src_mode_traces_unchanged` (MultiNest / PolyChord: their MAP is the sampler's
   own vector, passed through).
 
+  * `srcNestStoreSingle`, `srcNestStoreModes`, `srcPolyStore` — the dict `solutions` the regenerated WHOLE
+    `store_nest_solutions` (both calling patterns) / `store_polychord_solutions` return: the file-reading prefix
+    (dialect `seq`: `np.loadtxt` tables, the lines of `post_separate.dat` with the two-empty-lines mode separator, the
+    per-mode arrays), the loop over the modes with its keys `'solution{}'.format(nmode)`, the per-parameter loop and
+    `quantile_corner`; the sampler's own statistics are pass-through inputs.  `chain_files_unchanged` (Props/C09.lean) and
+    `traces_unchanged` are restated about them: `src_nest_store_single_unchanged`, `src_nest_store_modes_unchanged` (for a
+    `post_separate.dat` in MultiNest's layout), `src_poly_store_unchanged`.
+
   Not restated (no tie):
   * `wmean_between` for the nestle record: its mean is the external `mean_and_cov` (hypothesis `hmean`); restated for the
     derived record, where `np.average` is instantiated by `wmean`;
@@ -467,5 +475,174 @@ theorem src_mode_traces_unchanged {Name : Type} (names : List Name) (trace : Lis
     show ((names.zipIdx.map _)[i]?).map _ = _
     rw [zipIdx_map_getElem?, List.getElem?_eq_getElem hi]
     rfl
+
+/-! ### the whole store functions of the MultiNest / PolyChord wrappers, from the chains files to the solutions -/
+
+/-- the dict `solutions` the regenerated WHOLE `store_nest_solutions` returns, `multimodes = False`: `data` is the table
+    `np.loadtxt(<base>.txt)`; `nmap k`, `nmean k`, `nsig k` the sampler's own statistics of mode `k` (pass-through) -/
+noncomputable def srcNestStoreSingle {Name : Type} (names : List Name) (data : List (List ℝ))
+    (nmap nmean nsig : Nat → List ℝ) :=
+  Gen.SrcC09.multinest_store_single (accumulate := cumsum 0) (argsort := argsortStable) (c0p16 := q16) (c0p5 := q50)
+    (c0p84 := q84) (data := data) (fit_names := names) (interp := interpAll) (nest_map := nmap) (nest_mean := nmean)
+    (nest_sigma := nsig)
+
+/-- … `multimodes = True`: `lines` are the lines of `<base>post_separate.dat`, `splitWs` / `parseFloat` Python's
+    `str.split()` / `float()` -/
+noncomputable def srcNestStoreModes {Name : Type} (names : List Name) (data : List (List ℝ)) (lines : List String)
+    (splitWs : String → List String) (parseFloat : String → ℝ) (nmap nmean nsig : Nat → List ℝ) :=
+  Gen.SrcC09.multinest_store_modes (accumulate := cumsum 0) (argsort := argsortStable) (c0p16 := q16) (c0p5 := q50)
+    (c0p84 := q84) (data := data) (fit_names := names) (interp := interpAll) (lines := lines) (nest_map := nmap)
+    (nest_mean := nmean) (nest_sigma := nsig) (parseFloat := parseFloat) (splitWs := splitWs)
+
+/-- the dict `solutions` the regenerated WHOLE `store_polychord_solutions` returns: `data` = `1-.txt`, `cluster k` =
+    `clusters/1-_{k+1}.txt`, `nClusters` = `get_poly_cluster_number`, `dc` = `do_clustering`, `nFit` = `len(fit_names)` -/
+noncomputable def srcPolyStore {Name : Type} (names : List Name) (data : List (List ℝ)) (nClusters : Nat)
+    (cluster : Nat → List (List ℝ)) (dc : Bool) (nFit : Nat) (nmap nmean nsig : Nat → List ℝ) :=
+  Gen.SrcC09.polychord_store (accumulate := cumsum 0) (argsort := argsortStable) (c0p16 := q16) (c0p5 := q50)
+    (c0p84 := q84) (clusterNumber := nClusters) (clusterTable := cluster) (data := data) (do_clustering := dc)
+    (fit_names := names) (interp := interpAll) (nFit := nFit) (nest_map := nmap) (nest_mean := nmean) (nest_sigma := nsig)
+
+/-- what `solutionsOf` stores for `count` modes: entry `k` is `("solution<k>", rec k arrays[k] weights[k])` -/
+theorem solutionsOf_spec {ρ : Type} (rec : Nat → List (List ℝ) → List ℝ → ρ) (arrays : List (List (List ℝ)))
+    (weights : List (List ℝ)) (count : Nat) :
+    (solutionsOf rec arrays weights count).length = count ∧
+    ∀ k, k < count → (solutionsOf rec arrays weights count)[k]?
+      = some ("solution" ++ toString k, rec k (arrays.getD k []) (weights.getD k [])) := by
+  unfold solutionsOf
+  exact ⟨by simp, fun k hk => by simp [hk]⟩
+
+/-- the record of one stored mode: its samples and weights unchanged, one entry per fit name in order, the trace of
+    parameter `i` = column `i` of the samples, its value / errors the weighted quantiles of that column -/
+theorem nestModeRec_spec {Name : Type} (names : List Name) (nmap nmean nsig : List ℝ) (trace : List (List ℝ)) (w : List ℝ) :
+    (nestModeRec names nmap nmean nsig trace w).2.1 = trace ∧ (nestModeRec names nmap nmean nsig trace w).2.2 = w ∧
+    (nestModeRec names nmap nmean nsig trace w).1.map Prod.fst = names ∧
+    ∀ i, i < names.length → ((nestModeRec names nmap nmean nsig trace w).1[i]?).map (fun e => (e.2.2.2.2.2.2.1, e.2.2.2.2.2.2.2))
+      = some (column trace i, (summary (column trace i) w).value) := by
+  obtain ⟨htr, hwt, _⟩ := traces_unchanged names.length trace w
+  refine ⟨htr, hwt, zipIdx_map_keys names _, ?_⟩
+  intro i hi
+  show ((names.zipIdx.map _)[i]?).map _ = _
+  rw [zipIdx_map_getElem?, List.getElem?_eq_getElem hi]
+  rfl
+
+theorem polyModeRec_spec {Name : Type} (names : List Name) (nmap nmean nsig : List ℝ) (trace : List (List ℝ)) (w : List ℝ) :
+    (polyModeRec names nmap nmean nsig trace w).2.1 = trace ∧ (polyModeRec names nmap nmean nsig trace w).2.2 = w ∧
+    (polyModeRec names nmap nmean nsig trace w).1.map Prod.fst = names ∧
+    ∀ i, i < names.length → ((polyModeRec names nmap nmean nsig trace w).1[i]?).map (fun e => (e.2.2.2.2.2.2.1, e.2.2.2.2.2.2.2))
+      = some (column trace i, (summary (column trace i) w).value) := by
+  obtain ⟨htr, hwt, _⟩ := traces_unchanged names.length trace w
+  refine ⟨htr, hwt, zipIdx_map_keys names _, ?_⟩
+  intro i hi
+  show ((names.zipIdx.map _)[i]?).map _ = _
+  rw [zipIdx_map_getElem?, List.getElem?_eq_getElem hi]
+  rfl
+
+/-- **traces unchanged, the whole MultiNest wrapper without mode separation**, about the regenerated
+    `store_nest_solutions` (file prefix, loop over the modes, per-parameter loop, `quantile_corner`): exactly one solution,
+    stored under `solution0`; its `tracedata` / `weights` are the columns `2:` / column `0` of `<base>.txt`, and every
+    `fit_params` entry holds the column of the stored samples and its weighted median -/
+theorem src_nest_store_single_unchanged {Name : Type} (names : List Name) (data : List (List ℝ))
+    (nmap nmean nsig : Nat → List ℝ) :
+    ∃ r, srcNestStoreSingle names data nmap nmean nsig = [("solution0", r)] ∧
+      r.2.1 = data.map (fun row => row.drop 2) ∧ r.2.2 = data.map (fun row => row.getD 0 0) ∧
+      r.1.map Prod.fst = names ∧
+      ∀ i, i < names.length → (r.1[i]?).map (fun e => (e.2.2.2.2.2.2.1, e.2.2.2.2.2.2.2))
+        = some (column r.2.1 i, (summary (column r.2.1 i) r.2.2).value) := by
+  unfold srcNestStoreSingle
+  rw [src_multinest_store_single]
+  obtain ⟨h1, h2, h3, h4⟩ := nestModeRec_spec names (nmap 0) (nmean 0) (nsig 0) (data.map (fun row => row.drop 2))
+    (data.map (fun row => row.getD 0 0))
+  refine ⟨_, rfl, h1, h2, h3, ?_⟩
+  intro i hi
+  have := h4 i hi
+  rw [h1, h2] at *
+  exact this
+
+/-- **traces unchanged, the whole MultiNest wrapper with mode separation**: when `<base>post_separate.dat` is in MultiNest's
+    layout (its lines parse to `fileOf blocks`: before every mode two empty lines, then one line per sample; non-empty modes,
+    `n ≥ 1` parameters per line), the regenerated `store_nest_solutions` stores one solution per mode, in file order, under
+    `solution0`, `solution1`, …; solution `k` holds the samples (columns `2:`) and weights (column `0`) of the lines of mode
+    `k` unchanged, one `fit_params` entry per fit name whose trace is the column of these samples and whose value is its
+    weighted median -/
+theorem src_nest_store_modes_unchanged {Name : Type} (names : List Name) (data : List (List ℝ)) (lines : List String)
+    (splitWs : String → List String) (parseFloat : String → ℝ) (nmap nmean nsig : Nat → List ℝ)
+    (blocks : List (List (List ℝ))) (n : ℕ) (hfile : lines.map (toPLine splitWs parseFloat) = fileOf blocks)
+    (hne : blocks ≠ []) (hb : ∀ b ∈ blocks, b ≠ []) (hn : 1 ≤ n) (hlen : ∀ b ∈ blocks, ∀ r ∈ b, r.length = n + 2) :
+    (srcNestStoreModes names data lines splitWs parseFloat nmap nmean nsig).length = blocks.length ∧
+    ∀ k, k < blocks.length → ∃ r,
+      (srcNestStoreModes names data lines splitWs parseFloat nmap nmean nsig)[k]? = some ("solution" ++ toString k, r) ∧
+      r.2.1 = (blocks.getD k []).map (fun row => row.drop 2) ∧ r.2.2 = (blocks.getD k []).map (fun row => row.getD 0 0) ∧
+      r.1.map Prod.fst = names ∧
+      ∀ i, i < names.length → (r.1[i]?).map (fun e => (e.2.2.2.2.2.2.1, e.2.2.2.2.2.2.2))
+        = some (column r.2.1 i, (summary (column r.2.1 i) r.2.2).value) := by
+  unfold srcNestStoreModes
+  rw [src_multinest_store_modes, hfile, (chain_files_unchanged.2.1 blocks n hne hb hn hlen)]
+  have hrows : ∀ b ∈ blocks, ∀ r ∈ b, 2 < r.length := fun b hb' r hr => by rw [hlen b hb' r hr]; omega
+  rw [splitModes_fileOf blocks hne hb hrows]
+  simp only [List.length_map]
+  obtain ⟨hl, hk⟩ := solutionsOf_spec (fun k => nestModeRec names (nmap k) (nmean k) (nsig k))
+    (blocks.map (fun b => b.map (fun r => r.drop 2))) (blocks.map (fun b => b.map (fun r => r.getD 0 0))) blocks.length
+  refine ⟨hl, fun k hkk => ?_⟩
+  have ea : (blocks.map (fun b => b.map (fun r => r.drop 2))).getD k [] = (blocks.getD k []).map (fun row => row.drop 2) := by
+    simp [List.getD_eq_getElem?_getD, hkk]
+  have ew : (blocks.map (fun b => b.map (fun r => r.getD 0 0))).getD k [] = (blocks.getD k []).map (fun row => row.getD 0 0) := by
+    simp [List.getD_eq_getElem?_getD, hkk]
+  obtain ⟨h1, h2, h3, h4⟩ := nestModeRec_spec names (nmap k) (nmean k) (nsig k)
+    ((blocks.getD k []).map (fun row => row.drop 2)) ((blocks.getD k []).map (fun row => row.getD 0 0))
+  refine ⟨_, by rw [hk k hkk, ea, ew], h1, h2, h3, ?_⟩
+  intro i hi
+  have := h4 i hi
+  rw [h1, h2] at *
+  exact this
+
+/-- **traces unchanged, the whole PolyChord wrapper**: without clustering (or with one cluster) one solution from `1-.txt`,
+    otherwise one solution per cluster file in order; solution `k` holds the columns `2:nFit+2` and column `0` of its table -/
+theorem src_poly_store_unchanged {Name : Type} (names : List Name) (data : List (List ℝ)) (nClusters : Nat)
+    (cluster : Nat → List (List ℝ)) (dc : Bool) (nFit : Nat) (nmap nmean nsig : Nat → List ℝ) :
+    let table : Nat → List (List ℝ) := fun k => if dc = true ∧ nClusters ≠ 1 then cluster k else data
+    let count := if dc = true ∧ nClusters ≠ 1 then nClusters else 1
+    (srcPolyStore names data nClusters cluster dc nFit nmap nmean nsig).length = count ∧
+    ∀ k, k < count → ∃ r,
+      (srcPolyStore names data nClusters cluster dc nFit nmap nmean nsig)[k]? = some ("solution" ++ toString k, r) ∧
+      r.2.1 = (table k).map (fun row => (row.drop 2).take nFit) ∧ r.2.2 = (table k).map (fun row => row.getD 0 0) ∧
+      r.1.map Prod.fst = names ∧
+      ∀ i, i < names.length → (r.1[i]?).map (fun e => (e.2.2.2.2.2.2.1, e.2.2.2.2.2.2.2))
+        = some (column r.2.1 i, (summary (column r.2.1 i) r.2.2).value) := by
+  intro table count
+  unfold srcPolyStore
+  rw [src_polychord_store]
+  have hc : polyChains nFit dc nClusters data cluster
+      = ((List.range count).map (fun k => (table k).map (fun row => (row.drop 2).take nFit)),
+         (List.range count).map (fun k => (table k).map (fun row => row.getD 0 0)), count) := by
+    by_cases h : dc = true ∧ nClusters ≠ 1
+    · obtain ⟨hd, h1⟩ := h
+      have := chain_files_unchanged.2.2.1 nFit nClusters data cluster h1
+      simp only [count, table, hd, h1, ne_eq, not_false_eq_true, and_self, if_true]
+      exact this
+    · have h' : dc = false ∨ nClusters = 1 := by
+        by_cases hd : dc = true
+        · right; by_contra h1; exact h ⟨hd, h1⟩
+        · left; simpa using hd
+      have := chain_files_unchanged.2.2.2 nFit nClusters dc data cluster h'
+      simp only [count, table, h, if_false]
+      rw [this]; rfl
+  rw [hc]
+  obtain ⟨hl, hk⟩ := solutionsOf_spec (fun k => polyModeRec names (nmap k) (nmean k) (nsig k))
+    ((List.range count).map (fun k => (table k).map (fun row => (row.drop 2).take nFit)))
+    ((List.range count).map (fun k => (table k).map (fun row => row.getD 0 0))) count
+  refine ⟨hl, fun k hkk => ?_⟩
+  have ea : ((List.range count).map (fun k => (table k).map (fun row => (row.drop 2).take nFit))).getD k []
+      = (table k).map (fun row => (row.drop 2).take nFit) := by
+    simp [List.getD_eq_getElem?_getD, hkk]
+  have ew : ((List.range count).map (fun k => (table k).map (fun row => row.getD 0 0))).getD k []
+      = (table k).map (fun row => row.getD 0 0) := by
+    simp [List.getD_eq_getElem?_getD, hkk]
+  obtain ⟨h1, h2, h3, h4⟩ := polyModeRec_spec names (nmap k) (nmean k) (nsig k)
+    ((table k).map (fun row => (row.drop 2).take nFit)) ((table k).map (fun row => row.getD 0 0))
+  refine ⟨_, by rw [hk k hkk, ea, ew], h1, h2, h3, ?_⟩
+  intro i hi
+  have := h4 i hi
+  rw [h1, h2] at *
+  exact this
 
 end Taurex.C09SrcProps
